@@ -16,8 +16,8 @@ list / file API is recorded:
   holds another object" is seen even when the new object compares equal).  Key order is not compared
   (== semantics of dict).
 * list / tuple / UserList : element snapshots in order.
-* Path      : the bytes of the file (sha1 + length), or for a directory the sorted listing with the
-  bytes of every file below it.
+* Path      : the bytes of the file (sha1 + length; size + mtime above 4 MB), or for a directory the sorted
+  listing with the bytes of every file below it.
 * msgspec Structs (pysdmx Schema, Component, PandasDataset, TransformationScheme, ...) : field by
   field.
 * anything else : (type name, repr) and a deepcopy compared with ==.
@@ -77,6 +77,9 @@ def snap_array(a):
 
 def _file_sig(p):
     try:
+        st = os.stat(p)
+        if st.st_size > 4 << 20:      # large corpus inputs: size + mtime instead of the bytes
+            return "%d:mtime=%d" % (st.st_size, st.st_mtime_ns)
         b = open(p, "rb").read()
     except OSError as e:
         return "unreadable:" + type(e).__name__
